@@ -132,6 +132,32 @@ def _closure_def(raw, op, depth=0):
     return (found, l) if found else None
 
 
+def _resolve_closure_calls(raws, raw):
+    """Give unresolved `Fn* :: call*` terminators whose callee operand is a closure value built in this body their closure as `resolved`."""
+    n = 0
+    for blk in raw["blocks"]:
+        t = blk["term"]
+        if not t or t.get("k") != "call" or not re.search(r"^std::ops::(Fn|FnMut|FnOnce)::call(_mut|_once)?$", t.get("callee") or ""):
+            continue
+        if t.get("resolved") in raws or not t.get("args"):
+            continue
+        op = t["args"][0]
+        # `Fn::call(&f, ..)`: look through the reference
+        for _ in range(3):
+            if op.get("k") in ("move", "copy") and not op["pl"]["p"]:
+                l = op["pl"]["l"]
+                refs = [st["rv"] for b2 in raw["blocks"] for st in b2["stmts"] if "pl" in st and st["pl"]["l"] == l and not st["pl"]["p"]]
+                if len(refs) == 1 and refs[0].get("k") == "ref" and not refs[0]["pl"]["p"]:
+                    op = {"k": "copy", "pl": {"l": refs[0]["pl"]["l"], "p": []}}
+                    continue
+            break
+        cd = _closure_def(raw, op)
+        if cd and cd[0] in raws and raws[cd[0]].get("kind") == "closure":
+            t["resolved"] = cd[0]
+            n += 1
+    return n
+
+
 CLOSURE_CALL = "hv::closure_call"
 TRACKED = None   # set below: the combinator table plus the closure-call pseudo entry
 
@@ -594,6 +620,17 @@ def apply(prog, Body):
             b = table[p]
             new_raw, done = inline_body(raws, known, p, b.raw)
             if done:
+                # a closure handed to a generic helper (`fn run<F: FnOnce(..)>(.., f: F) { .. f(x) .. }`) is called there through an
+                # unresolved Fn* call; once the helper's body sits in the caller the closure value is in sight, and the call is the
+                # closure's body like any `let f = |x| ..; f(x)`
+                if _resolve_closure_calls(raws, new_raw):
+                    owner = owner_fn(p)
+                    skip = (known_combs.get(owner, set()) if owner in known else set()) | untracked
+                    raws[p] = new_raw
+                    lowered_raw, ldone = lower_body(raws, p, new_raw, skip - {CLOSURE_CALL})
+                    if ldone:
+                        new_raw = lowered_raw
+                    raws[p] = b.raw
                 table[p] = Body(p, new_raw, b.crate, b.config, elab=b.elab)
                 if table_name == "bodies":
                     prog.inlined[p] = done
